@@ -68,7 +68,11 @@ def run(ctx, rep):
         A.find_calls(n.ast, "self.%s.pop" % queue) or A.find_calls(n.ast, "self.%s.popleft" % queue))]
     rep.floor("R12.1", "acquire sites of the send lock in _send", len(acq_nodes), 1)
     rep.floor("R12.1", "release sites of the send lock in _send", len(rel_nodes), 1)
-    rep.floor("R12.3", "dequeue sites in _send", len(pop_nodes), 1)
+    if not pop_nodes:
+        rep.ob("R12.6", "Connection send layer: messages leave the queue one at a time, by a single atomic pop", False,
+               "no pop()/popleft() of self.%s is left in %s: any other way of emptying the queue (copy then clear, slicing, "
+               "re-binding) is not atomic - a message appended by another thread between the two steps is deleted unsent "
+               "and its sender, who lost the try-lock, has already returned" % (queue, f.name), f.loc)
 
     # acquire must be usable as a branch: test node (direct) -- otherwise assigned flag form
     acq_edges = []       # (node, label) edges on which the lock is held
@@ -268,7 +272,7 @@ def run(ctx, rep):
     rep.ob("R12.4", "Connection send layer: queue order", fifo,
            "producer end %s / consumer end %s: first in, first out" % (sorted(prod), sorted(cons)) if fifo else
            "producer end %s / consumer end %s is not FIFO: messages of one thread can leave out of order"
-           % (sorted(prod), sorted(cons)), ctx.loc(pop_nodes[0]), kind="site")
+           % (sorted(prod), sorted(cons)), ctx.loc(pop_nodes[0]) if pop_nodes else f.loc, kind="site")
 
     # ---- R12.6 atomic operations on the queue, and data flow pop -> send
     allowed_methods = {"append", "pop", "popleft", "appendleft"}
